@@ -20,10 +20,11 @@ def outc1? : Sexp → Option Outc
   | .list [.atom "err", n] => n.nat?.map .err
   | _ => none
 
-/-- `good | raising | oneShot | unsub j | resub j | reenter (val v) | reenter (err e)`; `0` / `1` = the old spelling -/
+/-- `good | raising | raisingBad | oneShot | unsub j | resub j | reenter (val v) | reenter (err e)`; `0` / `1` = the old spelling -/
 def beh? : List Sexp → Option Beh
   | [.atom "good"] | [.atom "0"] => some .good
   | [.atom "raising"] | [.atom "1"] => some .raising
+  | [.atom "raisingBad"] => some .raisingBad
   | [.atom "oneShot"] => some .oneShot
   | [.atom "unsub", n] => n.nat?.map .unsub
   | [.atom "resub", n] => n.nat?.map .resub
@@ -68,6 +69,7 @@ def res? : Sexp → Option Res
   | .list [.atom "raised", .atom "notImplemented"] => some (.raised .notImplemented)
   | .list [.atom "raised", .atom "notSubscribed"] => some (.raised .notSubscribed)
   | .list [.atom "raised", .atom "hook"] => some (.raised .hook)
+  | .list [.atom "raised", .atom "subRepr"] => some (.raised .subRepr)
   | .list (.atom "raised" :: _) => some (.raised .other)
   | .list [.atom "bool", b] => b.bool?.map .bool
   | .list [.atom "unit"] => some .unit
@@ -97,8 +99,8 @@ def handle (id : Nat) (hdr : List Sexp) (body : List Sexp) : String :=
     let ops := impl.map (·.op)
     let model := run (init k c) ops
     let corr := firstDiff model impl
-    let spec := specClause k impl c
-    let specm := specClause k model c
+    let spec := specClause k impl
+    let specm := specClause k model
     let c := match corr with | none => "ok" | some _ => "diff"
     let d := match corr with | none => "" | some (i, s) => (s!"obs {i}: {s}".replace "\n" " ")
     let f (s : String) := if s == "ok" then "ok" else "fail:" ++ s
@@ -107,7 +109,7 @@ def handle (id : Nat) (hdr : List Sexp) (body : List Sexp) : String :=
 
 /-! ### mode `futsubs`: notification rounds of futures that are NOT kinds of the one-future model (batch items, batches,
   DebugBatchItem, AsyncTasks that block) - no theorem speaks about how these complete; each round is judged by the
-  same clause `notifiedAll` (the one `spec` uses and `C10_spec_holds` is about) plus the plain
+  same clause `notifiedAll` (the one `spec` uses and `C10_spec_holds_partial` is about) plus the plain
   statements "a second set raises FutureIsAlreadyComputed" and "value() / call report the outcome".
 
   (fut) (sub id beh...)* (round outc (cbs) second-set-result read1 read2 expected-outc)*  per watched future  -/
@@ -123,12 +125,31 @@ structure Round where
   r1 : Res
   r2 : Res
   expected : Option Outc     -- the outcome the harness handed to the completion path
+  more : List (Op × Res) := []   -- further operations on the completed future, with their results (in order)
 
 def round? : Sexp → Option Round
   | .list [.atom "round", o, .list cbs, a, r1, r2, e] => do
     some { out := (← outc? o), cbs := (← cbs.mapM cb?), again := (← res? a), r1 := (← res? r1), r2 := (← res? r2),
            expected := (← outc? e) }
+  | .list [.atom "round", o, .list cbs, a, r1, r2, e, .list more] => do
+    some { out := (← outc? o), cbs := (← cbs.mapM cb?), again := (← res? a), r1 := (← res? r1), r2 := (← res? r2),
+           expected := (← outc? e),
+           more := (← more.mapM fun | .list [op, r] => do some ((← op? op), (← res? r)) | _ => none) }
   | _ => none
+
+/-- the further operations on the COMPLETED target (error(), is_computed(), a refused set_error / set_error(None) / set_value,
+    subscribe + unsubscribe of a late handler, raise_if_error): each answers what `watchStep` demands of a future known to hold `o`
+    (the computed branch of the observer of `spec`: the observation is built with no notification, outcome `o`, same run counter) -/
+def moreOk (o : Outc) : List (Op × Res) → Bool
+  | [] => true
+  | (op, r) :: rest =>
+    (match op with
+      | .subscribe _ _ | .unsubscribe _ => r == .unit     -- the late handler is subscribed and removed again; it is never notified (cbs of the round)
+      | _ =>
+        match watchStep (.lazyOk 0) { known := some o, subs := [], runs := 0, done := true }
+            { op := op, res := r, cbs := [], after := some o, runs := 0 } with
+        | .ok _ => true
+        | .error _ => false) && moreOk o rest
 
 def judgeRounds (subs : List Sub) (i : Nat) : List Round → String
   | [] => "ok"
@@ -140,6 +161,7 @@ def judgeRounds (subs : List Sub) (i : Nat) : List Round → String
       else if !notifiedAll subs r.cbs o then s!"notify-once@round{i}"
       else if r.again != .raised .alreadyComputed then s!"failed-set-raises@round{i}"
       else if r.r1 != readValue o || r.r2 != readValue o then s!"reads-stable@round{i}"
+      else if !moreOk o r.more then s!"computed-future-changes@round{i}"
       else judgeRounds (afterNotify subs) (i + 1) rs
 
 /-- the body is a sequence of groups `(fut) (sub ..)* (round ..)*`, one per watched future -/
@@ -194,5 +216,30 @@ def handleCopy (id : Nat) (_hdr : List Sexp) (body : List Sexp) : String :=
     if verdict == "ok" then s!"R {id} CORR=ok SPEC=ok SPECM=ok | "
     else s!"R {id} CORR=diff SPEC=fail:{verdict} SPECM=ok | made {made} computed {computed} same-outcome {same} second-set {again} outcome-kept {kept} original-untouched {orig}"
   | _ => s!"R {id} CORR=diff SPEC=ok SPECM=ok | unparsable futcopy case"
+
+/-! ### mode `futsusp`: a suspended AsyncTask completed from outside (possibly with a raising clean-up in its generator).
+  Blocking tasks are not kinds of the one-future model; direct expectation: the outcome is the outside one (read twice),
+  every subscriber is notified exactly once, in order, seeing that outcome, and the outside `set_value` / `set_error`
+  RETURNED - or, if the clean-up of the generator raises, raised exactly that exception (after the notifications).  Fails closed: an unparsable count or
+  result line is a report.
+
+  header: outside(value|error) cleanup(0|1) nsubs;  (result o1 o2 (seen...) (log...)) -/
+def handleSuspended (id : Nat) (hdr : List Sexp) (body : List Sexp) : String :=
+  match hdr, body with
+  | [.atom outside, cleanup, n], [.list [.atom "result", .atom o1, .atom o2, .list seen, .list log]] =>
+    match n.nat? with
+    | none => s!"R {id} CORR=diff SPEC=ok SPECM=ok | unparsable futsusp case (count)"
+    | some cnt =>
+      let want := if outside == "value" then "val" else "err"
+      let expSeen := (List.range cnt).map fun i => Sexp.atom s!"{i}:{want}"
+      if outside != "value" && outside != "error" then s!"R {id} CORR=diff SPEC=ok SPECM=ok | unparsable futsusp case (outside)"
+      -- the exception of a raising clean-up (generator.close() inside AsyncTask._computed's try/finally) reaches the
+      -- outside completer after everybody was notified: the only exception the outside set may answer with
+      else if o1 == want && o2 == want && seen == expSeen &&
+          (log.isEmpty || (cleanup.nat? == some 1 && log == [Sexp.atom "set-raised-boom"])) then s!"R {id} CORR=ok SPEC=ok SPECM=ok | "
+      else if !log.isEmpty && o1 == want && o2 == want && seen == expSeen then
+        s!"R {id} CORR=diff SPEC=fail:outside-completion-raises SPECM=ok | the outside set answered {Sexp.list log}"
+      else s!"R {id} CORR=diff SPEC=fail:outside-completion-{o1}-{o2}-notified-{seen.length}-of-{expSeen.length} SPECM=ok | expected outcome {want} twice and notifications {Sexp.list expSeen}, got {Sexp.list seen}, outside set {Sexp.list log}"
+  | _, _ => s!"R {id} CORR=diff SPEC=ok SPECM=ok | unparsable futsusp case"
 
 end AsynqModel.Drv.Futures
